@@ -137,6 +137,17 @@ func genC03(r *rand.Rand, run int, tier string) *vm.Plan {
 		}
 		h.add(vm.Op{K: "verify", A: ty, KS: &vm.KeySel{Key: key}, Az: &az, Qs: qs, Lim: lim, Flags: []string{"query-after-limit"}})
 	}
+	// a fifth of the runs evaluate under clock stalls with left-behind goroutines running on: a
+	// block's evaluation that is cut short must not leave anything of the block visible to the
+	// queries that follow on the same authorizer
+	if r.Intn(5) == 0 {
+		for i := range h.p.Ops {
+			if h.p.Ops[i].K == "verify" {
+				h.p.Ops[i].Flags = append(h.p.Ops[i].Flags, "query-after-limit")
+			}
+		}
+		schedule(r, h.p, "stall", 1e9, 30+r.Intn(600))
+	}
 	return h.p
 }
 
@@ -409,6 +420,9 @@ func genC13(r *rand.Rand, run int, tier string) *vm.Plan {
 	if r.Intn(5) == 0 {
 		lim.MaxFacts = 3 + r.Intn(10)
 	}
+	if r.Intn(4) == 0 { // a tight iteration limit: what one round uses must not be charged to the next
+		lim.MaxIter = 3 + r.Intn(5)
+	}
 	az := h.add(vm.Op{K: "az", A: t, KS: &vm.KeySel{Key: key}, Lim: lim, Out: h.slot()})
 	// the fresh twins run either right after their round or (half of the plans) after the whole
 	// history, so that whatever a round leaves behind is still around when the next round starts
@@ -582,6 +596,9 @@ func genC18(r *rand.Rand, run int, tier string) *vm.Plan {
 		}
 		h.add(vm.Op{K: "verify", A: t, KS: &vm.KeySel{Key: key}, Az: &content, Qs: qs, Lim: bigDur, Name: name})
 		a2 := h.add(vm.Op{K: "az", A: t, KS: &vm.KeySel{Key: key}, Lim: bigDur, Out: h.slot()})
+		if r.Intn(4) == 0 { // the (still empty) authorizer has already answered a query before the snapshot is loaded
+			h.add(vm.Op{K: "azquery", A: a2, Qs: qs[:1]})
+		}
 		h.add(vm.Op{K: "azload", A: a2, B: blob})
 		h.add(vm.Op{K: "azauth", A: a2, Qs: qs, Name: name})
 		if faulty { // the verifier stays usable
